@@ -19,6 +19,7 @@ pub const T_FROM_PATH: i64 = 5; // rosu_map::from_path over a real temp file
 pub const T_CHAIN: i64 = 6; // std::io::Chain of two slices split at p["split"]
 pub const T_BUFREADER_DEFAULT: i64 = 7; // BufReader::new(&[u8]) (8 KiB)
 pub const T_FROM_BYTES: i64 = 8;
+pub const T_FROM_PATH_SLOWPIPE: i64 = 10; // from_path over a pipe whose writer delivers the bytes in two parts, 120 ms apart (real OS, real time: affects only sensitivity, a correct from_path gives the same result however slowly the bytes arrive)
 pub const T_FROM_PATH_PIPE: i64 = 9; // rosu_map::from_path over /proc/self/fd/<pipe> (a path whose metadata reports length 0)
 
 pub fn transport_name(t: i64) -> &'static str {
@@ -32,6 +33,7 @@ pub fn transport_name(t: i64) -> &'static str {
         T_CHAIN => "transport.chain-of-slices",
         T_BUFREADER_DEFAULT => "transport.std-BufReader-8k",
         T_FROM_PATH_PIPE => "transport.from_path-pipe-via-procfs",
+        T_FROM_PATH_SLOWPIPE => "transport.from_path-slow-pipe-two-parts",
         _ => "transport.from_bytes",
     }
 }
@@ -96,6 +98,9 @@ pub fn plan_transport(rng: &mut Rng, plan: &mut Plan, sim_only: bool) {
     if t == T_CHAIN {
         plan.set("split", rng.below(len + 1) as i64);
     }
+    if t == T_FROM_PATH && rng.chance(1, 2) {
+        plan.set("decoy", 1 + rng.below(len.max(1)) as i64);
+    }
     if t == T_BUFREADER {
         let cap = if rng.chance(3, 5) { 1 + rng.below(16) } else { rng.small(8192) };
         plan.set("cap", cap as i64);
@@ -153,7 +158,7 @@ pub fn plan_transport(rng: &mut Rng, plan: &mut Plan, sim_only: bool) {
     // R3: Interrupted placements, bursts <= 3
     if rng.chance(2, 5) {
         let avg = plan.sched.iter().map(|&x| x as usize).sum::<usize>().max(1) / plan.sched.len().max(1);
-        let est_calls = (len / avg.max(1)).min(20_000) + 8;
+        let est_calls = (len / avg.max(1)).min(2_000_000) + 8;
         let m = 1 + rng.below(5);
         let mut e = Vec::new();
         for _ in 0..m {
@@ -298,7 +303,27 @@ pub fn decode_via(plan: &Plan, dec: Dec, st: &mut Stats) -> Via {
             let dir = tmp_dir();
             let _ = std::fs::create_dir_all(&dir);
             let path = dir.join(format!("{:?}-{}.osu", std::thread::current().id(), plan.idx));
-            let out = match std::fs::write(&path, data) {
+            // history on the real file system: the same path first holds *other* bytes of the same length and the same
+            // modification time and is decoded once; the result for the real content must not depend on that
+            if !data.is_empty() && plan.get("decoy") != 0 {
+                let mut decoy = data.to_vec();
+                let at = (plan.get("decoy").unsigned_abs() as usize) % decoy.len();
+                decoy[at] = if decoy[at] == b'9' { b'8' } else { b'9' };
+                let stamp = std::time::SystemTime::UNIX_EPOCH + std::time::Duration::from_secs(1_700_000_000);
+                if std::fs::write(&path, &decoy).is_ok() {
+                    if let Ok(f) = std::fs::File::options().write(true).open(&path) {
+                        let _ = f.set_modified(stamp);
+                    }
+                    let _ = from_path_fp(dec, &path);
+                    st.inc("realfs.same-path-decoy-decoded-first");
+                }
+                if std::fs::write(&path, data).is_ok() {
+                    if let Ok(f) = std::fs::File::options().write(true).open(&path) {
+                        let _ = f.set_modified(stamp);
+                    }
+                }
+            }
+            let out = match if plan.get("decoy") != 0 && !data.is_empty() { Ok(()) } else { std::fs::write(&path, data) } {
                 Ok(()) => conv(from_path_fp(dec, &path)).0,
                 Err(_) => {
                     // the real file system failed us: not a verdict about rosu-map; fall back to from_bytes
@@ -322,6 +347,38 @@ pub fn decode_via(plan: &Plan, dec: Dec, st: &mut Stats) -> Via {
                     if ok && std::path::Path::new(&path).exists() {
                         let r = conv(from_path_fp(dec, std::path::Path::new(&path))).0;
                         drop(rd);
+                        r
+                    } else {
+                        st.inc("realfs.pipe-unavailable");
+                        conv(from_bytes_fp(dec, data)).0
+                    }
+                }
+                _ => {
+                    st.inc("realfs.pipe-unavailable");
+                    conv(from_bytes_fp(dec, data)).0
+                }
+            };
+            Via { out, rs: None, err_is_injected: false }
+        }
+        T_FROM_PATH_SLOWPIPE => {
+            use std::io::Write as _;
+            use std::os::fd::AsRawFd;
+            let out = match std::io::pipe() {
+                Ok((rd, mut wr)) => {
+                    let path = format!("/proc/self/fd/{}", rd.as_raw_fd());
+                    if std::path::Path::new(&path).exists() {
+                        let sp = (plan.get("split").max(0) as usize).min(data.len());
+                        let (a, b) = (data[..sp].to_vec(), data[sp..].to_vec());
+                        let h = std::thread::spawn(move || {
+                            let _ = wr.write_all(&a);
+                            let _ = wr.flush();
+                            std::thread::sleep(std::time::Duration::from_millis(120));
+                            let _ = wr.write_all(&b);
+                            drop(wr);
+                        });
+                        let r = conv(from_path_fp(dec, std::path::Path::new(&path))).0;
+                        drop(rd);
+                        let _ = h.join();
                         r
                     } else {
                         st.inc("realfs.pipe-unavailable");
